@@ -1,8 +1,735 @@
+// vinstr rewrites the synchronisation operations of selected packages of the
+// repository under test into calls of verif/mc/vrt (see /verif/DESIGN.md §3.1)
+// and emits a `go build -overlay` file. The repository itself is never
+// modified: the rewritten sources are written to -out.
+//
+// It fails closed: any syntactic form it does not know how to rewrite is
+// reported as INSTRUMENTATION-ERROR and the exit status is 2.
 package main
 
 import (
+	"bytes"
+	"encoding/json"
+	"flag"
 	"fmt"
+	"go/ast"
+	"go/format"
+	"go/token"
+	"go/types"
+	"os"
+	"path/filepath"
+	"sort"
+	"strconv"
+	"strings"
+
 	"golang.org/x/tools/go/packages"
 )
 
-func main() { fmt.Println(packages.NeedName) }
+const vrtPath = "verif/mc/vrt"
+const vrtName = "vrt__"
+
+var stdRedirect = map[string]string{
+	"sync":        vrtPath + "/vsync",
+	"sync/atomic": vrtPath + "/vatomic",
+	"time":        vrtPath + "/vtime",
+}
+
+type spec struct {
+	// Packages to instrument, relative to the repository root.
+	Packages []string `json:"packages"`
+	// Per-package extra import redirections: {"destination": {"net": "verif/mc/vrt/vnet"}}
+	Redirect map[string]map[string]string `json:"redirect"`
+	// Fine-grained yield groups: group -> list of function names
+	// ("pkgdir.Func" or "pkgdir.Recv.Method", Recv without '*').
+	Fine map[string][]string `json:"fine"`
+	// Extra overlay entries (repo-relative target -> absolute source).
+	Add map[string]string `json:"add"`
+	// Textual tweaks of property-irrelevant resource parameters, applied
+	// before parsing (skipped silently when the text is not found exactly once).
+	Tweaks []tweak `json:"tweaks"`
+}
+
+type tweak struct {
+	File string `json:"file"`
+	Old  string `json:"old"`
+	New  string `json:"new"`
+}
+
+func fatal(format string, a ...interface{}) {
+	fmt.Fprintf(os.Stderr, "INSTRUMENTATION-ERROR: "+format+"\n", a...)
+	os.Exit(2)
+}
+
+func main() {
+	repo := flag.String("repo", "/repo", "repository root")
+	out := flag.String("out", "", "output directory")
+	specFile := flag.String("spec", "", "JSON spec file")
+	flag.Parse()
+	if *out == "" || *specFile == "" {
+		fatal("usage: vinstr -repo DIR -out DIR -spec FILE")
+	}
+	var sp spec
+	b, err := os.ReadFile(*specFile)
+	if err != nil {
+		fatal("%v", err)
+	}
+	if err := json.Unmarshal(b, &sp); err != nil {
+		fatal("spec: %v", err)
+	}
+	fine := map[string]string{}
+	for g, fs := range sp.Fine {
+		for _, f := range fs {
+			fine[f] = g
+		}
+	}
+	fineSeen := map[string]bool{}
+
+	var patterns []string
+	for _, p := range sp.Packages {
+		patterns = append(patterns, "./"+p)
+	}
+	cfg := &packages.Config{
+		Mode: packages.NeedName | packages.NeedFiles | packages.NeedCompiledGoFiles | packages.NeedSyntax |
+			packages.NeedTypes | packages.NeedTypesInfo | packages.NeedImports | packages.NeedDeps,
+		Dir: *repo,
+		Env: append(os.Environ(), "GOFLAGS=-mod=mod", "GOPROXY=off", "GOSUMDB=off", "GOTOOLCHAIN=local"),
+	}
+	cfg.Overlay = map[string][]byte{}
+	for _, tw := range sp.Tweaks {
+		path := filepath.Join(*repo, tw.File)
+		src, ok := cfg.Overlay[path]
+		if !ok {
+			src, err = os.ReadFile(path)
+			if err != nil {
+				continue
+			}
+		}
+		if bytes.Count(src, []byte(tw.Old)) != 1 {
+			fmt.Printf("vinstr: tweak of %s skipped (text not found exactly once)\n", tw.File)
+			continue
+		}
+		cfg.Overlay[path] = bytes.Replace(src, []byte(tw.Old), []byte(tw.New), 1)
+	}
+	pkgs, err := packages.Load(cfg, patterns...)
+	if err != nil {
+		fatal("load: %v", err)
+	}
+	overlay := map[string]string{}
+	nfiles, npoints := 0, 0
+	for _, pkg := range pkgs {
+		if len(pkg.Errors) > 0 {
+			fatal("package %s: %v", pkg.PkgPath, pkg.Errors[0])
+		}
+		rel, err := filepath.Rel(*repo, filepath.Dir(pkg.GoFiles[0]))
+		if err != nil {
+			fatal("%v", err)
+		}
+		for i, f := range pkg.Syntax {
+			name := pkg.CompiledGoFiles[i]
+			if strings.HasSuffix(name, "_test.go") {
+				continue
+			}
+			r := &rewriter{fset: pkg.Fset, info: pkg.TypesInfo, pkgDir: rel, fine: fine, fineSeen: fineSeen, file: name,
+				redirect: sp.Redirect[rel]}
+			changed := r.file_(f)
+			npoints += r.points
+			if _, tweaked := cfg.Overlay[name]; !changed && !tweaked {
+				continue
+			}
+			var buf bytes.Buffer
+			if err := format.Node(&buf, pkg.Fset, f); err != nil {
+				fatal("%s: print: %v", name, err)
+			}
+			dst := filepath.Join(*out, rel, filepath.Base(name))
+			if err := os.MkdirAll(filepath.Dir(dst), 0o755); err != nil {
+				fatal("%v", err)
+			}
+			if err := os.WriteFile(dst, buf.Bytes(), 0o644); err != nil {
+				fatal("%v", err)
+			}
+			overlay[name] = dst
+			nfiles++
+		}
+	}
+	for f := range fine {
+		if !fineSeen[f] {
+			fatal("fine-grained function %q not found", f)
+		}
+	}
+	for target, src := range sp.Add {
+		overlay[filepath.Join(*repo, target)] = src
+	}
+	ob, _ := json.MarshalIndent(map[string]interface{}{"Replace": overlay}, "", " ")
+	if err := os.WriteFile(filepath.Join(*out, "overlay.json"), ob, 0o644); err != nil {
+		fatal("%v", err)
+	}
+	fmt.Printf("vinstr: %d packages, %d files rewritten, %d operations instrumented\n", len(pkgs), nfiles, npoints)
+}
+
+type rewriter struct {
+	fset     *token.FileSet
+	info     *types.Info
+	pkgDir   string
+	file     string
+	fine     map[string]string
+	fineSeen map[string]bool
+	redirect map[string]string
+	tmp      int
+	points   int
+	usedVrt  bool
+}
+
+func (r *rewriter) errf(n ast.Node, format string, a ...interface{}) {
+	fatal("%s: %s", r.fset.Position(n.Pos()), fmt.Sprintf(format, a...))
+}
+
+func (r *rewriter) name(prefix string) *ast.Ident {
+	r.tmp++
+	return ast.NewIdent(fmt.Sprintf("_v%s%d", prefix, r.tmp))
+}
+
+func (r *rewriter) vrt(fn string, args ...ast.Expr) *ast.CallExpr {
+	r.usedVrt = true
+	return &ast.CallExpr{Fun: &ast.SelectorExpr{X: ast.NewIdent(vrtName), Sel: ast.NewIdent(fn)}, Args: args}
+}
+
+func define(lhs []ast.Expr, rhs ...ast.Expr) *ast.AssignStmt {
+	return &ast.AssignStmt{Lhs: lhs, Tok: token.DEFINE, Rhs: rhs}
+}
+
+func exprs(ids ...*ast.Ident) []ast.Expr {
+	out := make([]ast.Expr, len(ids))
+	for i, id := range ids {
+		out[i] = id
+	}
+	return out
+}
+
+// file_ rewrites one file in place; reports whether anything changed.
+func (r *rewriter) file_(f *ast.File) bool {
+	changed := false
+	// 1. imports
+	for _, imp := range f.Imports {
+		p, _ := strconv.Unquote(imp.Path.Value)
+		np, ok := stdRedirect[p]
+		if r.redirect != nil {
+			if x, ok2 := r.redirect[p]; ok2 {
+				np, ok = x, true
+			}
+		}
+		if !ok {
+			continue
+		}
+		if imp.Name == nil {
+			base := p
+			if i := strings.LastIndex(p, "/"); i >= 0 {
+				base = p[i+1:]
+			}
+			imp.Name = ast.NewIdent(base)
+		}
+		imp.Path.Value = strconv.Quote(np)
+		imp.EndPos = 0
+		changed = true
+	}
+	// 2. builtin close(ch) -> vrt.Close(ch)
+	ast.Inspect(f, func(n ast.Node) bool {
+		if c, ok := n.(*ast.CallExpr); ok {
+			if id, ok := c.Fun.(*ast.Ident); ok && id.Name == "close" {
+				if _, isB := r.info.Uses[id].(*types.Builtin); isB {
+					c.Fun = &ast.SelectorExpr{X: ast.NewIdent(vrtName), Sel: ast.NewIdent("Close")}
+					r.usedVrt = true
+					r.points++
+				}
+			}
+		}
+		return true
+	})
+	// 3. fine-grained yields (before channel rewriting, on original statements)
+	for _, d := range f.Decls {
+		fd, ok := d.(*ast.FuncDecl)
+		if !ok || fd.Body == nil {
+			continue
+		}
+		key := r.pkgDir + "." + fd.Name.Name
+		if fd.Recv != nil && len(fd.Recv.List) == 1 {
+			t := fd.Recv.List[0].Type
+			if s, ok := t.(*ast.StarExpr); ok {
+				t = s.X
+			}
+			if id, ok := t.(*ast.Ident); ok {
+				key = r.pkgDir + "." + id.Name + "." + fd.Name.Name
+			}
+		}
+		if g, ok := r.fine[key]; ok {
+			r.fineSeen[key] = true
+			r.yields(fd.Body, g)
+		}
+	}
+	// 4. channel operations, go statements: collect all function bodies first
+	var bodies []*ast.BlockStmt
+	ast.Inspect(f, func(n ast.Node) bool {
+		switch x := n.(type) {
+		case *ast.FuncDecl:
+			if x.Body != nil {
+				bodies = append(bodies, x.Body)
+			}
+		case *ast.FuncLit:
+			bodies = append(bodies, x.Body)
+		}
+		return true
+	})
+	for _, b := range bodies {
+		b.List = r.block(b.List)
+	}
+	if r.usedVrt {
+		r.addImport(f)
+		changed = true
+	}
+	if changed {
+		// keep only the comments in front of the package clause (build
+		// constraints, file doc): positions of the rest would be misplaced
+		var keep []*ast.CommentGroup
+		for _, cg := range f.Comments {
+			if cg.End() < f.Package {
+				keep = append(keep, cg)
+			}
+		}
+		f.Comments = keep
+		f.Doc = nil
+		ast.Inspect(f, func(n ast.Node) bool {
+			switch x := n.(type) {
+			case *ast.FuncDecl:
+				x.Doc = nil
+			case *ast.GenDecl:
+				x.Doc = nil
+			case *ast.Field:
+				x.Doc, x.Comment = nil, nil
+			case *ast.ValueSpec:
+				x.Doc, x.Comment = nil, nil
+			case *ast.TypeSpec:
+				x.Doc, x.Comment = nil, nil
+			case *ast.ImportSpec:
+				x.Doc, x.Comment = nil, nil
+			}
+			return true
+		})
+	}
+	return changed
+}
+
+func (r *rewriter) addImport(f *ast.File) {
+	spec := &ast.ImportSpec{Name: ast.NewIdent(vrtName), Path: &ast.BasicLit{Kind: token.STRING, Value: strconv.Quote(vrtPath)}}
+	decl := &ast.GenDecl{Tok: token.IMPORT, Specs: []ast.Spec{spec}}
+	f.Decls = append([]ast.Decl{decl}, f.Decls...)
+	f.Imports = append(f.Imports, spec)
+}
+
+// yields inserts vrt.YieldG(group) before every statement of every statement
+// list below n (function literals included).
+func (r *rewriter) yields(n ast.Node, group string) {
+	ins := func(list []ast.Stmt) []ast.Stmt {
+		out := make([]ast.Stmt, 0, 2*len(list))
+		for _, s := range list {
+			if _, isDecl := s.(*ast.DeclStmt); !isDecl {
+				out = append(out, &ast.ExprStmt{X: r.vrt("YieldG", &ast.BasicLit{Kind: token.STRING, Value: strconv.Quote(group)})})
+				r.points++
+			}
+			out = append(out, s)
+		}
+		return out
+	}
+	ast.Inspect(n, func(n ast.Node) bool {
+		switch x := n.(type) {
+		case *ast.BlockStmt:
+			x.List = ins(x.List)
+		case *ast.CaseClause:
+			x.Body = ins(x.Body)
+		case *ast.CommClause:
+			x.Body = ins(x.Body)
+		}
+		return true
+	})
+}
+
+func (r *rewriter) block(list []ast.Stmt) []ast.Stmt {
+	var out []ast.Stmt
+	for _, s := range list {
+		out = append(out, r.stmt(s)...)
+	}
+	return out
+}
+
+func (r *rewriter) one(s ast.Stmt) ast.Stmt {
+	if s == nil {
+		return nil
+	}
+	res := r.stmt(s)
+	if len(res) == 1 {
+		return res[0]
+	}
+	return &ast.BlockStmt{List: res}
+}
+
+// hasRecv reports whether e contains a receive expression outside function literals.
+func hasRecv(n ast.Node) bool {
+	if n == nil {
+		return false
+	}
+	found := false
+	ast.Inspect(n, func(n ast.Node) bool {
+		switch x := n.(type) {
+		case *ast.FuncLit:
+			return false
+		case *ast.UnaryExpr:
+			if x.Op == token.ARROW {
+				found = true
+			}
+		}
+		return !found
+	})
+	return found
+}
+
+func unparen(e ast.Expr) ast.Expr {
+	for {
+		p, ok := e.(*ast.ParenExpr)
+		if !ok {
+			return e
+		}
+		e = p.X
+	}
+}
+
+func asRecv(e ast.Expr) *ast.UnaryExpr {
+	if u, ok := unparen(e).(*ast.UnaryExpr); ok && u.Op == token.ARROW {
+		return u
+	}
+	return nil
+}
+
+// constLike: expression must not be hoisted into a := temporary.
+func (r *rewriter) constLike(e ast.Expr) bool {
+	tv, ok := r.info.Types[e]
+	if !ok {
+		return false
+	}
+	return tv.Value != nil || tv.IsNil()
+}
+
+func (r *rewriter) isChan(e ast.Expr) bool {
+	tv, ok := r.info.Types[e]
+	if !ok || tv.Type == nil {
+		return false
+	}
+	_, isC := tv.Type.Underlying().(*types.Chan)
+	return isC
+}
+
+func (r *rewriter) stmt(s ast.Stmt) []ast.Stmt {
+	switch x := s.(type) {
+	case nil:
+		return nil
+	case *ast.BlockStmt:
+		x.List = r.block(x.List)
+		return []ast.Stmt{x}
+	case *ast.IfStmt:
+		if hasRecv(x.Init) || hasRecv(x.Cond) {
+			r.errf(x, "receive in if header not supported")
+		}
+		x.Body.List = r.block(x.Body.List)
+		if x.Else != nil {
+			x.Else = r.one(x.Else)
+		}
+		return []ast.Stmt{x}
+	case *ast.ForStmt:
+		if hasRecv(x.Init) || hasRecv(x.Cond) || hasRecv(x.Post) {
+			r.errf(x, "receive in for header not supported")
+		}
+		x.Body.List = r.block(x.Body.List)
+		return []ast.Stmt{x}
+	case *ast.RangeStmt:
+		return r.rangeStmt(x, nil)
+	case *ast.SwitchStmt:
+		if hasRecv(x.Init) || hasRecv(x.Tag) {
+			r.errf(x, "receive in switch header not supported")
+		}
+		for _, c := range x.Body.List {
+			cc := c.(*ast.CaseClause)
+			for _, e := range cc.List {
+				if hasRecv(e) {
+					r.errf(e, "receive in case expression not supported")
+				}
+			}
+			cc.Body = r.block(cc.Body)
+		}
+		return []ast.Stmt{x}
+	case *ast.TypeSwitchStmt:
+		if hasRecv(x.Init) || hasRecv(x.Assign) {
+			r.errf(x, "receive in type switch header not supported")
+		}
+		for _, c := range x.Body.List {
+			cc := c.(*ast.CaseClause)
+			cc.Body = r.block(cc.Body)
+		}
+		return []ast.Stmt{x}
+	case *ast.SelectStmt:
+		return []ast.Stmt{r.selectStmt(x, nil)}
+	case *ast.LabeledStmt:
+		switch in := x.Stmt.(type) {
+		case *ast.RangeStmt:
+			return r.rangeStmt(in, x)
+		case *ast.SelectStmt:
+			return []ast.Stmt{r.selectStmt(in, x)}
+		}
+		res := r.stmt(x.Stmt)
+		if len(res) == 0 {
+			return []ast.Stmt{x}
+		}
+		x.Stmt = res[0]
+		return append([]ast.Stmt{x}, res[1:]...)
+	case *ast.GoStmt:
+		return []ast.Stmt{r.goStmt(x)}
+	case *ast.SendStmt:
+		if hasRecv(x.Chan) || hasRecv(x.Value) {
+			r.errf(x, "receive inside send statement not supported")
+		}
+		c := r.name("c")
+		list := []ast.Stmt{define(exprs(c), x.Chan)}
+		val := x.Value
+		if !r.constLike(val) {
+			v := r.name("v")
+			list = append(list, define(exprs(v), val))
+			val = v
+		}
+		h := r.name("h")
+		list = append(list,
+			define(exprs(h), r.vrt("BeforeSend", c)),
+			&ast.SendStmt{Chan: c, Value: val},
+			&ast.ExprStmt{X: r.vrt("After", h)})
+		r.points++
+		return []ast.Stmt{&ast.BlockStmt{List: list}}
+	case *ast.ExprStmt:
+		if u := asRecv(x.X); u != nil {
+			pre, c, post := r.recvGuards(u)
+			u.X = c
+			return append(append(pre, x), post...)
+		}
+		if hasRecv(x.X) {
+			r.errf(x, "receive nested in expression statement not supported")
+		}
+		return []ast.Stmt{x}
+	case *ast.AssignStmt:
+		if len(x.Rhs) == 1 {
+			if u := asRecv(x.Rhs[0]); u != nil {
+				for _, l := range x.Lhs {
+					if hasRecv(l) {
+						r.errf(x, "receive on left-hand side not supported")
+					}
+				}
+				pre, c, post := r.recvGuards(u)
+				u.X = c
+				return append(append(pre, x), post...)
+			}
+		}
+		if hasRecv(x) {
+			r.errf(x, "receive nested in assignment not supported")
+		}
+		return []ast.Stmt{x}
+	case *ast.ReturnStmt:
+		if len(x.Results) == 1 {
+			if u := asRecv(x.Results[0]); u != nil {
+				pre, c, post := r.recvGuards(u)
+				res := r.name("r")
+				u.X = c
+				list := append(pre, define(exprs(res), u))
+				list = append(list, post...)
+				x.Results[0] = res
+				return append(list, x)
+			}
+		}
+		if hasRecv(x) {
+			r.errf(x, "receive nested in return not supported")
+		}
+		return []ast.Stmt{x}
+	case *ast.DeclStmt, *ast.IncDecStmt, *ast.DeferStmt:
+		if hasRecv(x) {
+			r.errf(x, "receive in this statement form not supported")
+		}
+		return []ast.Stmt{x}
+	case *ast.BranchStmt, *ast.EmptyStmt:
+		return []ast.Stmt{x}
+	}
+	r.errf(s, "unknown statement type %T", s)
+	return nil
+}
+
+// recvGuards returns the statements to put before and after a statement
+// that performs the receive u (whose operand the caller replaces by c).
+func (r *rewriter) recvGuards(u *ast.UnaryExpr) (pre []ast.Stmt, c *ast.Ident, post []ast.Stmt) {
+	if hasRecv(u.X) {
+		r.errf(u, "nested receive not supported")
+	}
+	c = r.name("c")
+	h := r.name("h")
+	pre = []ast.Stmt{define(exprs(c), u.X), define(exprs(h), r.vrt("BeforeRecv", c))}
+	post = []ast.Stmt{&ast.ExprStmt{X: r.vrt("After", h)}}
+	r.points++
+	return
+}
+
+func (r *rewriter) goStmt(g *ast.GoStmt) ast.Stmt {
+	call := g.Call
+	var list []ast.Stmt
+	fn := call.Fun
+	if _, isLit := unparen(fn).(*ast.FuncLit); !isLit || true {
+		f := r.name("f")
+		list = append(list, define(exprs(f), fn))
+		fn = f
+	}
+	args := make([]ast.Expr, len(call.Args))
+	for i, a := range call.Args {
+		if hasRecv(a) {
+			r.errf(a, "receive in go argument not supported")
+		}
+		if r.constLike(a) {
+			args[i] = a
+			continue
+		}
+		v := r.name("a")
+		list = append(list, define(exprs(v), a))
+		args[i] = v
+	}
+	inner := &ast.CallExpr{Fun: fn, Args: args, Ellipsis: call.Ellipsis}
+	lit := &ast.FuncLit{Type: &ast.FuncType{Params: &ast.FieldList{}}, Body: &ast.BlockStmt{List: []ast.Stmt{&ast.ExprStmt{X: inner}}}}
+	list = append(list, &ast.ExprStmt{X: r.vrt("Go", lit)})
+	r.points++
+	return &ast.BlockStmt{List: list}
+}
+
+func (r *rewriter) rangeStmt(x *ast.RangeStmt, lbl *ast.LabeledStmt) []ast.Stmt {
+	wrap := func(s ast.Stmt) ast.Stmt {
+		if lbl != nil {
+			lbl.Stmt = s
+			return lbl
+		}
+		return s
+	}
+	if !r.isChan(x.X) {
+		if hasRecv(x.X) {
+			r.errf(x, "receive in range expression not supported")
+		}
+		x.Body.List = r.block(x.Body.List)
+		return []ast.Stmt{wrap(x)}
+	}
+	c := r.name("c")
+	h := r.name("h")
+	ok := r.name("ok")
+	var lhs []ast.Expr
+	tok := x.Tok
+	if x.Key != nil {
+		lhs = []ast.Expr{x.Key, ok}
+		if tok == token.ASSIGN {
+			// v = range: ok must be declared separately
+			r.errf(x, "range over channel with = not supported")
+		}
+	} else {
+		lhs = []ast.Expr{ast.NewIdent("_"), ok}
+		tok = token.DEFINE
+	}
+	body := []ast.Stmt{
+		define(exprs(h), r.vrt("BeforeRecv", c)),
+		&ast.AssignStmt{Lhs: lhs, Tok: tok, Rhs: []ast.Expr{&ast.UnaryExpr{Op: token.ARROW, X: c}}},
+		&ast.ExprStmt{X: r.vrt("After", h)},
+		&ast.IfStmt{Cond: &ast.UnaryExpr{Op: token.NOT, X: ok}, Body: &ast.BlockStmt{List: []ast.Stmt{&ast.BranchStmt{Tok: token.BREAK}}}},
+	}
+	body = append(body, r.block(x.Body.List)...)
+	r.points++
+	loop := &ast.ForStmt{Body: &ast.BlockStmt{List: body}}
+	return []ast.Stmt{&ast.BlockStmt{List: []ast.Stmt{define(exprs(c), x.X), wrap(loop)}}}
+}
+
+func (r *rewriter) selectStmt(x *ast.SelectStmt, lbl *ast.LabeledStmt) ast.Stmt {
+	var pre []ast.Stmt
+	var cases []ast.Expr
+	var clauses []ast.Stmt
+	hasDefault := false
+	h := r.name("h")
+	k := r.name("k")
+	idx := 0
+	for _, c := range x.Body.List {
+		cc := c.(*ast.CommClause)
+		if cc.Comm == nil {
+			hasDefault = true
+			clauses = append(clauses, &ast.CaseClause{List: nil, Body: r.block(cc.Body)})
+			continue
+		}
+		var comm ast.Stmt
+		switch m := cc.Comm.(type) {
+		case *ast.SendStmt:
+			if hasRecv(m.Chan) || hasRecv(m.Value) {
+				r.errf(m, "receive inside select send not supported")
+			}
+			ch := r.name("c")
+			pre = append(pre, define(exprs(ch), m.Chan))
+			val := m.Value
+			if !r.constLike(val) {
+				v := r.name("v")
+				pre = append(pre, define(exprs(v), val))
+				val = v
+			}
+			cases = append(cases, r.vrt("SendCase", ch))
+			comm = &ast.SendStmt{Chan: ch, Value: val}
+		case *ast.ExprStmt:
+			u := asRecv(m.X)
+			if u == nil || hasRecv(u.X) {
+				r.errf(m, "unsupported select receive")
+			}
+			ch := r.name("c")
+			pre = append(pre, define(exprs(ch), u.X))
+			cases = append(cases, r.vrt("RecvCase", ch))
+			u.X = ch
+			comm = m
+		case *ast.AssignStmt:
+			if len(m.Rhs) != 1 {
+				r.errf(m, "unsupported select receive")
+			}
+			u := asRecv(m.Rhs[0])
+			if u == nil || hasRecv(u.X) {
+				r.errf(m, "unsupported select receive")
+			}
+			for _, l := range m.Lhs {
+				if hasRecv(l) {
+					r.errf(m, "unsupported select receive")
+				}
+			}
+			ch := r.name("c")
+			pre = append(pre, define(exprs(ch), u.X))
+			cases = append(cases, r.vrt("RecvCase", ch))
+			u.X = ch
+			comm = m
+		default:
+			r.errf(cc, "unsupported comm clause %T", cc.Comm)
+		}
+		body := []ast.Stmt{comm, &ast.ExprStmt{X: r.vrt("After", h)}}
+		body = append(body, r.block(cc.Body)...)
+		clauses = append(clauses, &ast.CaseClause{List: []ast.Expr{&ast.BasicLit{Kind: token.INT, Value: strconv.Itoa(idx)}}, Body: body})
+		idx++
+		r.points++
+	}
+	def := "false"
+	if hasDefault {
+		def = "true"
+	}
+	args := append([]ast.Expr{ast.NewIdent(def)}, cases...)
+	pre = append(pre,
+		define(exprs(h, k), r.vrt("Select", args...)),
+		&ast.AssignStmt{Lhs: []ast.Expr{ast.NewIdent("_")}, Tok: token.ASSIGN, Rhs: []ast.Expr{h}})
+	var sw ast.Stmt = &ast.SwitchStmt{Tag: k, Body: &ast.BlockStmt{List: clauses}}
+	if lbl != nil {
+		lbl.Stmt = sw
+		sw = lbl
+	}
+	return &ast.BlockStmt{List: append(pre, sw)}
+}
+
+var _ = sort.Strings
